@@ -3,7 +3,7 @@ import Tahoe.Http.LemmasServer
 import Tahoe.Http.LemmasDirect
 import Tahoe.Http.LemmasGate
 /-! C31 — HTTP and direct storage access agree (property theorems; helper lemmas are in
-`Tahoe/Http/LemmasMarshal.lean`, `LemmasServer.lean`, `LemmasDirect.lean`).
+`Tahoe/Http/LemmasMarshal.lean`, `LemmasServer.lean`, `LemmasDirect.lean`, `LemmasCodec.lean`, `LemmasGate.lean`).
 
 Two executable models over one abstract state: `directStep` (`Http/Direct.lean`: the `StorageServer` calls a
 local / Foolscap caller makes) and the HTTP path = client (`Http/Client.lean`) ∘ gate ∘ handler
